@@ -161,6 +161,20 @@ async fn episode(p: &EpParams) -> EpReport {
                 }
                 rep.inc("same_name_created_around_the_delete");
             }
+            // a quarter of the episodes: a second DeleteSubscription crosses the first, with a burst of
+            // publishes (more than the subscription's mailbox holds) queued on the topic
+            if rng.chance(1, 4) && !topic_deleted_first {
+                let (cx, s3) = (Cx::new(&w, 80), s.clone());
+                kinds.push("DeleteAgain");
+                inflight.push(("DeleteAgain", tokio::spawn(async move { cx.delete_sub(&s3).await.map_err(|e| e.code() as i32) })));
+                for j in 0..rng.range(17, 64) {
+                    let (cx, t3) = (Cx::new(&w, 200 + j as u32), t.clone());
+                    tokio::spawn(async move {
+                        let _ = cx.publish(&t3, &[Msg::tagged(&format!("burst{}", j))]).await;
+                    });
+                }
+                rep.inc("crossing_deletes_with_publish_burst");
+            }
             if race_publish {
                 let cx = Cx::new(&w, 2);
                 let t2 = t.clone();
